@@ -4,6 +4,7 @@ import (
 	"flag"
 	"fmt"
 	"go/token"
+	"golang.org/x/tools/go/ssa"
 	"os"
 	"os/exec"
 	"path/filepath"
@@ -220,7 +221,11 @@ func doDump(spec, repo, verif string, overlay map[string][]byte) {
 		fmt.Println("function not found")
 		return
 	}
-	traces, complete := c.Trace(f, TraceConfig{})
+	dcfg := TraceConfig{}
+	if os.Getenv("NEPDUMP_NOINL") != "" {
+		dcfg.Inline = func(*ssa.Function, int) bool { return false }
+	}
+	traces, complete := c.Trace(f, dcfg)
 	fmt.Printf("%d traces complete=%v\n", len(traces), complete)
 	for i, t := range traces {
 		fmt.Printf("--- trace %d end=%d ret=%v\n", i, t.End, t.Ret)
